@@ -297,7 +297,81 @@ pub fn c03_from_array<const N: usize>() {
     vf::check(tok::balanced(), 302);
 }
 
+/// other element shapes on a full container: S = 0 zero-sized value `(u8, ())`, 1 large value `(u8, [u64; 3])`,
+/// 2 zero-sized key `((), u8)` (at most one entry can exist).  Plain types, no ledger; every insertion entry point.
+pub fn c03_shapes<const N: usize, const S: u8>() {
+    macro_rules! run {
+        ($kt:ty, $vt:ty, $mk:expr, $mv:expr, $kid:expr) => {{
+            let mut g: Guarded<Map<$kt, $vt, N>> = unsafe { vf::garbage() };
+            vf::assume(g.c.len() == 0);
+            g.lo = [LO; 2];
+            g.hi = [HI; 2];
+            let mut ks = [0u8; 8];
+            let mut i = 0;
+            while i < N {
+                ks[i] = vf::any_u8();
+                let mut j = 0;
+                while j < i { vf::assume(ks[j] != ks[i]); j += 1; }
+                vf::check(g.c.insert($mk(ks[i]), $mv(ks[i])).is_none(), 100);
+                i += 1;
+            }
+            let k = vf::any_u8();
+            let mut j = 0;
+            while j < N { vf::assume(ks[j] != k); j += 1; }
+            let which = vf::any_u8();
+            vf::assume(which < 4);
+            let panics0 = vf::panics();
+            let panicked = {
+                let m = &mut g.c;
+                vf::catch(move || match which {
+                    0 => { let _ = m.insert($mk(k), $mv(k)); }
+                    1 => { let _ = m.insert_key_value($mk(k), $mv(k)); }
+                    2 => { let _ = m.entry($mk(k)).or_insert($mv(k)); }
+                    _ => { let _: Map<$kt, $vt, N> = (0..N + 1).map(|i| ($mk(if i < N { ks[i] } else { k }), $mv(0))).collect(); }
+                })
+            };
+            vf::check(panicked, 711);
+            if panicked { vf::reach(1); }
+            if vf::COUNTS_PANICS { vf::check(vf::panics() == panics0 + 1, 712); }
+            vf::check(g.intact(), 713);
+            vf::check(g.c.len() == N && g.c.capacity() == N, 720);
+            vf::check(g.c.checked_insert($mk(k), $mv(k)).is_none(), 717);
+            let mut t = 0usize;
+            let p = vf::any_usize();
+            for (kk, vv) in g.c.iter() { t += 1; if p < N && $kid(kk) == ks[p] { vf::check(*vv == $mv(ks[p]), 207); } }
+            vf::check(t == N, 202);
+            if p < N { vf::check(g.c.get(&$mk(ks[p])) == Some(&$mv(ks[p])), 204); }
+            vf::check(g.c.get(&$mk(k)).is_none(), 204);
+            if N > 0 { vf::check(g.c.remove(&$mk(ks[0])) == Some($mv(ks[0])), 716); vf::check(g.c.insert($mk(k), $mv(k)).is_none() && g.c.len() == N, 716); }
+            vf::check(g.intact(), 713);
+        }};
+    }
+    match S {
+        0 => run!(u8, (), |k: u8| k, |_k: u8| (), |k: &u8| *k),
+        1 => run!(u8, [u64; 3], |k: u8| k, |k: u8| [k as u64, 7, !(k as u64)], |k: &u8| *k),
+        _ => {
+            // zero-sized key: every key equals every other, so N = 1 is the only full non-trivial map and an "absent key" does not exist;
+            // what must hold: a second insert replaces (never appends), capacity is respected, nothing outside is written
+            let mut g: Guarded<Map<(), u8, N>> = unsafe { vf::garbage() };
+            vf::assume(g.c.len() == 0);
+            g.lo = [LO; 2];
+            g.hi = [HI; 2];
+            let (a, b) = (vf::any_u8(), vf::any_u8());
+            let panicked = { let m = &mut g.c; vf::catch(move || { let _ = m.insert((), a); }) };
+            vf::check(panicked == (N == 0), 711);
+            if N > 0 {
+                vf::reach(1);
+                vf::check(g.c.insert((), b) == Some(a) && g.c.len() == 1, 718);
+                vf::check(g.c.get(&()) == Some(&b) && g.c.iter().count() == 1, 204);
+                vf::check(g.c.checked_insert((), a) == Some(Some(b)), 717);
+            } else { vf::reach(1); vf::check(g.c.len() == 0 && g.c.checked_insert((), a).is_none(), 717); }
+            vf::check(g.intact(), 713);
+        }
+    }
+}
+
 harnesses! {
+    c03_shapes: [0, 0] [1, 0] [2, 0] [3, 0] [0, 1] [1, 1] [2, 1] [3, 1] [0, 2] [1, 2] [2, 2];
     c03_insert: [0] [1] [2] [3];
     c03_insert_kv: [0] [1] [2] [3];
     c03_or_insert: [0] [1] [2] [3];
@@ -312,6 +386,7 @@ harnesses! {
     c03_replace_full: [1] [2] [3];
     c03_from_array: [0] [1] [2] [3];
     @deep
+    c03_shapes: [4, 0] [5, 0] [4, 1] [5, 1];
     c03_insert: [4] [5];
     c03_insert_kv: [4] [5];
     c03_or_insert: [4] [5];
